@@ -37,7 +37,7 @@ Outcomes(sw, A) ==
 \* Is the recorded run a behaviour of Solver.tla ending in control state `final`?  The classification of a sweep by the
 \* exact stopping rule (numpy.allclose with the REQUESTED tolerances) decides what may be handed back:
 \*   returned : the last sweep meets the requested tolerance (never an earlier, intermediate iterate) within the sweep
-\*              budget, and every earlier sweep was performed.  An implementation is free to be stricter than asked and
+\*              budget (maxiter sweeps and the one further sweep of the loop guard), every earlier sweep was performed.  An implementation is free to be stricter than asked and
 \*              go on after a sweep that already met the tolerance: that the code returns at the FIRST such sweep is
 \*              recorded as note.C03.ReturnedAtFirstConverged, not judged.
 \*   noconv   : the budget was used up: maxiter sweeps, or the one further sweep the loop guard `iters <= maxiter` performs
@@ -49,7 +49,7 @@ Outcomes(sw, A) ==
 Explains(sws, A, j0, final) ==
   LET n == Len(sws) IN
   /\ \A j \in 1..(n - 1) : sws[j].ok
-  /\ IF final = "returned" THEN n >= 1 /\ n <= A.maxiter /\ "conv" \in Outcomes(sws[n], A)
+  /\ IF final = "returned" THEN n >= 1 /\ n <= A.maxiter + 1 /\ "conv" \in Outcomes(sws[n], A)
      ELSE IF final = "noconv" THEN n \in {A.maxiter, A.maxiter + 1} /\ (n >= 1 => sws[n].ok)
      ELSE n >= 1 /\ ~sws[n].ok /\ n <= A.maxiter + 1
 AtFirstConverged(sws, A) == \A j \in 1..(Len(sws) - 1) : "not" \in Outcomes(sws[j], A)
@@ -85,7 +85,9 @@ CaseClauses(c) ==
      Cl("C03.Returned.IsIterate", fin /\ c.end.kind = "return" /\ n >= 1,
         /\ c.end.v \in {last.v0, last.v1} /\ c.end.i \in {last.i0, last.i1}
         /\ c.has_table => (c.tv = c.end.v /\ c.ti = c.end.i)),
-     Cl("C03.MaxIter", c.end.kind = "return", n <= A.maxiter)
+     \* (the budget: maxiter sweeps, plus the one further sweep the loop guard allows - DESIGN 9.2 - whether it ends in a
+     \*  RuntimeError or confirms a convergence)
+     Cl("C03.MaxIter", c.end.kind = "return", n <= A.maxiter + 1)
   >>
 
 AllClauseNames == {"C03.NoNaN", "C03.ExcClass", "C03.Terminates", "C03.Sweep.Machine", "note.C03.Sweep.Chain",
